@@ -53,44 +53,45 @@ def _cvc5_check(args):
     return r, reason, time.time() - t0
 
 
-def discharge(goals, timeout_s=20, workers=None, use_cvc5=True, both=False, seed=0):
-    """Sets g.status in {unsat, sat, unknown, error}, g.solver, g.time."""
+def discharge(goals, timeout_s=20, workers=None, use_cvc5=True, both=False, seed=0, stages=("z3", "z3-mbqi", "cvc5")):
+    """Sets g.status in {unsat, sat, unknown, error}, g.solver, g.time.
+    stages: which back ends to try, in order, on the goals still open."""
     workers = workers or min(16, os.cpu_count() or 4)
-    todo = [g for g in goals if g.status is None]
-    texts = [g.to_smt2() for g in todo]
+    todo = [g for g in goals if both or g.status != "unsat"]
     stats = {"z3_time": 0.0, "cvc5_time": 0.0, "z3": 0, "cvc5": 0}
     if not todo:
         return stats
+    for g in todo:
+        if g.status is None:
+            g.time = 0.0
     with ProcessPoolExecutor(max_workers=workers) as ex:
-        # portfolio: z3 with E-matching only (fast and stable on the quantified
-        # heap goals), then z3 default (MBQI) for what is left
-        rs = list(ex.map(_z3_check, [(t, int(timeout_s * 1000), seed, False) for t in texts], chunksize=1))
-        for g, (r, reason, dt) in zip(todo, rs):
-            g.status, g.solver, g.time, g.reason = r, "z3", dt, reason
-            stats["z3_time"] += dt
-            if r == "unsat":
-                stats["z3"] += 1
-        left = [g for g in todo if g.status != "unsat"]
-        rs = list(ex.map(_z3_check, [(g.to_smt2(), int(timeout_s * 1000), seed, True) for g in left], chunksize=1))
-        for g, (r, reason, dt) in zip(left, rs):
-            stats["z3_time"] += dt
-            g.time += dt
-            if r == "unsat":
-                g.status, g.solver = r, "z3-mbqi"
-                stats["z3"] += 1
-            elif r == "sat":
-                g.status, g.reason = "sat", "model found by z3 (mbqi)"
-        if use_cvc5:
-            open_ = [g for g in todo if g.status != "unsat"] if not both else todo
-            rs = list(ex.map(_cvc5_check, [(g.to_smt2(), int(timeout_s * 1000)) for g in open_], chunksize=1))
-            for g, (r, reason, dt) in zip(open_, rs):
-                stats["cvc5_time"] += dt
-                g.cvc5 = (r, reason, dt)
-                if g.status != "unsat" and r == "unsat":
-                    g.status, g.solver, g.time = "unsat", "cvc5", g.time + dt
-                    stats["cvc5"] += 1
-                elif g.status == "unsat" and r == "unsat":
-                    g.solver = "z3+cvc5"
+        for stage in stages:
+            open_ = [g for g in todo if g.status != "unsat"]
+            if stage == "cvc5" and both:
+                open_ = todo
+            if not open_:
+                break
+            if stage in ("z3", "z3-mbqi"):
+                rs = list(ex.map(_z3_check, [(g.to_smt2(), int(timeout_s * 1000), seed, stage == "z3-mbqi") for g in open_], chunksize=1))
+                for g, (r, reason, dt) in zip(open_, rs):
+                    stats["z3_time"] += dt
+                    g.time += dt
+                    if r == "unsat":
+                        g.status, g.solver = "unsat", stage
+                        stats["z3"] += 1
+                    elif g.status != "unsat":
+                        g.status, g.reason = ("unknown" if r != "sat" else "sat"), reason or ("model found (%s)" % stage if r == "sat" else "")
+                        g.solver = stage
+            elif stage == "cvc5" and use_cvc5:
+                rs = list(ex.map(_cvc5_check, [(g.to_smt2(), int(timeout_s * 1000)) for g in open_], chunksize=1))
+                for g, (r, reason, dt) in zip(open_, rs):
+                    stats["cvc5_time"] += dt
+                    g.cvc5 = (r, reason, round(dt, 2))
+                    if g.status != "unsat" and r == "unsat":
+                        g.status, g.solver, g.time = "unsat", "cvc5", g.time + dt
+                        stats["cvc5"] += 1
+                    elif g.status == "unsat" and r == "unsat" and "cvc5" not in g.solver:
+                        g.solver = g.solver + "+cvc5"
     return stats
 
 
